@@ -9,7 +9,7 @@ from ..cfg import cfg_of, switch_arms, const_eval, unwrap_cases
 from ..cxx_ir import CALL_KINDS
 from .common import (ALL_KINDS, KIND_ENUM, short, inst, live_funcs, kind_switches, calls_in,
                      callee_func, enclosing_map, ancestors, thrown_type, member_path,
-                     local_inits, assignments_to)
+                     local_inits, assignments_to, strip_casts)
 
 
 # --------------------------------------------------------------------------------------------
@@ -596,8 +596,18 @@ def k8(ctx):
                       % (inst(f), diffs), node.loc, d)
 
 
+def _depth_name(f):
+    """name of the variable the depth check of f compares with MAX_RECURSION_DEPTH"""
+    chk = _depth_checks(f)
+    if not chk:
+        return None
+    return member_path(strip_casts(chk[0][2]))
+
+
 def _depth_step(prog, f):
     """how the depth handed to children relates to the checked depth: '+1' or other text"""
+    # the depth variable is whatever the depth check compares with the limit
+    dn = _depth_name(f)
     # recursive form: some call in f or its lambdas passes `depth + 1` to f's own template
     fam = [f] + prog.lambdas_of(f)
     for g in fam:
@@ -605,16 +615,16 @@ def _depth_step(prog, f):
             t = callee_func(prog, g, c)
             if t is not None and t.qualname == f.qualname:
                 pnames = [p[0] for p in t.params]
-                if 'depth' in pnames:
-                    a = c.call_args()[pnames.index('depth')]
+                if dn in pnames:
+                    a = c.call_args()[pnames.index(dn)]
                     if a is not None and a.kind == 'BinaryOperator' and a.op == '+' and \
-                            member_path(a.kids[0]) == 'depth' and const_eval(a.kids[1]) == 1:
+                            member_path(a.kids[0]) == dn and const_eval(a.kids[1]) == 1:
                         return '+1'
                     return a.text(3) if a is not None else '?'
     # agenda form: `++depth` (or depth + 1) once, dominated by the check, and children are
     # pushed with `depth`
     incs = [n for n in f.body.walk() if n.kind == 'UnaryOperator' and n.op == '++' and
-            member_path(n.kids[0]) == 'depth']
+            member_path(n.kids[0]) == dn]
     if len(incs) == 1:
         cfg = cfg_of(f)
         chk = _depth_checks(f)
@@ -622,7 +632,7 @@ def _depth_step(prog, f):
             # every emplace_back on the agenda after the increment passes `depth`
             pushes = [c for c in calls_in(f.body, {'emplace_back'})
                       if (member_path(c.call_base()) or '').endswith('m_agenda')]
-            if pushes and all(len(c.call_args()) >= 2 and member_path(c.call_args()[1]) == 'depth'
+            if pushes and all(len(c.call_args()) >= 2 and member_path(c.call_args()[1]) == dn
                               and cfg.dominates(cfg.cnode_of(incs[0]), cfg.cnode_of(c))
                               for c in pushes):
                 return '+1'
@@ -634,6 +644,7 @@ def _depth_initial(prog, f):
     """depth given to the root: literal at the call sites of f from outside its own family, or
     the literal in the iterator's agenda initialiser"""
     vals = set()
+    dn = _depth_name(f)
     for g in live_funcs(prog):
         if g.qualname == f.qualname or (g.is_lambda and g.parent == f.key):
             continue
@@ -643,8 +654,8 @@ def _depth_initial(prog, f):
             t = callee_func(prog, g, c)
             if t is not None and t.key == f.key:
                 pnames = [p[0] for p in t.params]
-                if 'depth' in pnames:
-                    a = c.call_args()[pnames.index('depth')]
+                if dn in pnames:
+                    a = c.call_args()[pnames.index(dn)]
                     v = const_eval(a)
                     vals.add(str(v) if v is not None else a.text(3))
     if vals:
